@@ -11,8 +11,9 @@ mutual
     | f + 1, bs =>
       match decHead bs with
       | none => none
-      | some (mt, _, n, r) =>
-        if mt = 0 ∨ mt = 1 ∨ mt = 7 then some r
+      | some (mt, ai, n, r) =>
+        if mt = 0 ∨ mt = 1 then some r
+        else if mt = 7 then (if ai = 24 ∧ n < 32 then none else some r)
         else if mt = 2 ∨ mt = 3 then (if n ≤ r.length then some (r.drop n) else none)
         else if mt = 4 then skipItems f n r
         else if mt = 5 then skipItems f (2 * n) r
